@@ -22,7 +22,7 @@ T_MON = {
     "C01": ["M_CommitAtomic", "M_WriteCondition", "M_WriteValue", "M_PerKeyIncreasing", "M_FailedOnlyIfDiffered",
             "M_FailedLeavesKey", "M_SuccessMeansWritten", "M_DeleteReturnsPrev", "M_IndexAgrees"],
     "C02": ["M_UniqueRevision", "M_RealTimeOrder", "M_PerKeyIncreasing", "M_HeaderCoversData"],
-    "C04": ["M_NoOvertake", "M_CommittedMonotone", "M_CommittedWasReported", "M_Resolved"],
+    "C04": ["M_NoOvertake", "M_CommittedMonotone", "M_CommittedWasReported", "M_Resolved", "M_ReadIsSnapshot", "M_HeaderCoversData"],
 }
 
 
@@ -70,6 +70,49 @@ def run_mc(work, consts, invariants, timeout=3000, module="MC_Write.tla", name="
     if not r.get("ok"):
         raise Undecided("TLC did not finish (rc=%s): %s\n%s" % (r["rc"], r["error"], r["tail"][-2000:]))
     return r
+
+
+# reader processes of the concurrent model (RInvoke / RCheck / RIter) next to a writer and the stepwise compactor
+RD_CONSTS = dict(BASE_CONSTS, Keys={1}, Writers={"c1"}, OpsPer=2, InitStates={"none", "live2", "deleted"}, ExpSet={0, 2, 4},
+                 Readers={"r1"}, ReadRevs={0, 2, 4}, MaxReads=1)
+RD_INV = ["IndexAgrees", "Chain", "Resolved", "ReadIsSnapshotC", "ReadAtHeader", "HeaderCoversReads", "RefusedBelowFloor", "ReadsPreserved", "StaysWritable"]
+RD_MON = ["M_ReadIsSnapshot", "M_MoreFlag", "M_HeaderCoversData", "M_BelowFloorRefused", "M_ReadableServed"]
+
+
+def reader_part(work, binp, cov, quick, seed):
+    """Model-checks the reader processes and replays generated schedules with reads in flight; returns the traces."""
+    comp = dict(Compactors={"k1"}, CompactRevs={0, 2}, MaxCompacts=1, CompactDetail=True)
+    mcs = [("reads in flight: 1 writer x 2 requests, 1 reader (list / get at 0, 2, 4)", dict(RD_CONSTS)),
+           ("reads in flight: 1 writer, 1 reader, stepwise compactor", dict(RD_CONSTS, OpsPer=1, **comp))]
+    if not quick:
+        mcs.append(("reads in flight, iterator snapshot fixed at the timestamp fetch (TiKV)", dict(RD_CONSTS, OpsPer=1, SnapAtTs=True, ConflictCarriesValue=False, **comp)))
+        mcs.append(("reads in flight: 2 readers", dict(RD_CONSTS, OpsPer=1, Readers={"r1", "r2"}, ReadRevs={0, 4})))
+    for title, consts in mcs:
+        r = run_mc(work, consts, RD_INV, name="mcrd")
+        cov["states"] += r["distinct"]
+        cov["transitions"] += r["states"]
+        cov["mc_runs"].append(dict(module="KubeBrain.tla (RInvoke / RCheck / RIter)", config=title, distinct_states=r["distinct"], states_generated=r["states"], invariants=RD_INV))
+        log("MC %s: %d distinct states" % (title, r["distinct"]))
+    g = dict(RD_CONSTS, Keys={1, 2}, MaxReads=2, **comp)
+    n = 1500 if quick else 20000
+    traces = []
+    nreads = 0
+    for engine, consts, num, shards in [("memkv", g, n, 16), ("tikv", dict(g, SnapAtTs=True, ConflictCarriesValue=False), n // 5, 8), ("badger", g, n // 5, 4)]:
+        behs, _ = gen_behaviours(work, consts, "simulate", seed + 11, num=num, depth=90, limit=num, name="genrd")
+        reports, trs = replay(work, binp, behs, engine, shards, name="replayrd_" + engine)
+        rep = merge_reports(reports)
+        cov["evaluations"] += rep.get("behaviours", 0)
+        cov["distinct_nontrivial"] += rep.get("nontrivial", 0)
+        nreads += (rep.get("action_count") or {}).get("RIter", 0)
+        cov["replay"].append(dict(what="schedules with reads in flight (reader, writer, stepwise compactor), replayed gate by gate", engine=engine,
+                                  behaviours=rep.get("behaviours", 0), agreed=rep.get("agreed", 0), diverged=rep.get("diverged", 0),
+                                  observable_mismatch=rep.get("obs_mismatch", 0), actions=rep.get("action_count", {}), notes=(rep.get("mismatch_notes") or [])[:2]))
+        log("replay %s, reads in flight: %d behaviours, agreed %d, diverged %d, observable mismatch %d" % (
+            engine, rep.get("behaviours", 0), rep.get("agreed", 0), rep.get("diverged", 0), rep.get("obs_mismatch", 0)))
+        traces += trs
+    if nreads == 0:
+        raise Undecided("vacuous: no replayed behaviour contained a read")
+    return traces
 
 
 def check_write(prop, tier, seed):
@@ -134,6 +177,9 @@ def check_write(prop, tier, seed):
             log("replay %s/%s: %d behaviours, agreed %d, diverged %d, observable mismatch %d" % (
                 engine, mode, rep.get("behaviours", 0), rep.get("agreed", 0), rep.get("diverged", 0), rep.get("obs_mismatch", 0)))
             alltraces += traces
+        if prop == "C04":
+            # "reads never overtake a write": reads in flight as processes of the model
+            alltraces += reader_part(work, binp, cov, tier == "quick", seed)
         # ---- 3. free-running concurrent executions of the real backend, recorded
         fr = free_run(work, binp, seed, tier)
         alltraces += fr["traces"]
